@@ -2,7 +2,7 @@
    resolved by truth (converted to a model term by the harness), the flat statement list that
    passes::desugar_blocks::run produced for it, and AstVm's observations before and after for a
    few initial register valuations.  [model_of] recomputes all of it with the model. *)
-From TV Require Import Base.I32 Model.Blocks Model.BlocksInst.
+From TV Require Import Base.I32 Model.Blocks Model.BlocksInst Gen.DesugarRules.
 Open Scope Z_scope.
 
 Inductive ires :=
@@ -13,6 +13,12 @@ Inductive ires :=
 Inductive c06case :=
 | KProg (fl : flavour) (p : block IL) (flat : list (finstr IL))
         (runs : list (Z * iregs * ires * ires)).   (* initial time, registers, before, after *)
+
+(* the flavour desugaring picks for a format that has (or has not) each counting-jump intrinsic:
+   discover_alternatives walks the order of preference, the last available one wins *)
+Definition cfg_flavour (has_ne has_gt : bool) : flavour :=
+  fold_left (fun acc k => if (match k with PredecNeZero => has_ne | PredecGtZero => has_gt end) then k else acc)
+            gen_pref_order gen_fallback.
 
 (* ---- decidable equalities ---- *)
 Fixpoint list_eqb {A} (eqb : A -> A -> bool) (l1 l2 : list A) : bool :=
@@ -214,3 +220,38 @@ Fixpoint unexplained_cases (n : N) (l : list c06case) : list N :=
   | [] => []
   | c :: t => if unexplained c then n :: unexplained_cases (n + 1) t else unexplained_cases (n + 1) t
   end.
+
+(* Monomorphic aliases of the constructors: the harness prints these names, so that elaborating a
+   case needs no implicit-argument inference (several times faster for 10 KB terms). *)
+Definition mASimple : isimple -> atom IL := @ASimple IL.
+Definition mADecl : list nat -> isimple -> atom IL := @ADecl IL.
+Definition mANop : atom IL := @ANop IL.
+Definition mATime : tlabel -> atom IL := @ATime IL.
+Definition mSAtom : atom IL -> stmt IL := @SAtom IL.
+Definition mSBreak : nat -> stmt IL := @SBreak IL.
+Definition mSCondBreak : kw -> iexpr -> nat -> stmt IL := @SCondBreak IL.
+Definition mSBlock : block IL -> stmt IL := @SBlock IL.
+Definition mSCond : kw -> iexpr -> block IL -> chain IL -> stmt IL := @SCond IL.
+Definition mSLoop : nat -> block IL -> stmt IL := @SLoop IL.
+Definition mSWhile : nat -> iexpr -> block IL -> stmt IL := @SWhile IL.
+Definition mSDoWhile : nat -> iexpr -> block IL -> stmt IL := @SDoWhile IL.
+Definition mSTimes : nat -> option Z -> iexpr -> block IL -> stmt IL := @STimes IL.
+Definition mBNil : block IL := @BNil IL.
+Definition mBCons : stmt IL -> block IL -> block IL := @BCons IL.
+Definition mCEnd : chain IL := @CEnd IL.
+Definition mCElse : block IL -> chain IL := @CElse IL.
+Definition mCElif : kw -> iexpr -> block IL -> chain IL -> chain IL := @CElif IL.
+Definition mFUser : Z -> fvar IL := @FUser IL.
+Definition mFTemp : nat -> fvar IL := @FTemp IL.
+Definition mCExpr : iexpr -> fcond IL := @CExpr IL.
+Definition mCIsZero : fvar IL -> fcond IL := @CIsZero IL.
+Definition mCPredec : fvar IL -> fcond IL := @CPredec IL.
+Definition mCPredecGt : fvar IL -> fcond IL := @CPredecGt IL.
+Definition mFAtom : atom IL -> finstr IL := @FAtom IL.
+Definition mFScopeEnd : nat -> finstr IL := @FScopeEnd IL.
+Definition mFDeclTemp : nat -> finstr IL := @FDeclTemp IL.
+Definition mFScopeEndTemp : nat -> finstr IL := @FScopeEndTemp IL.
+Definition mFSet : fvar IL -> iexpr -> finstr IL := @FSet IL.
+Definition mFLabel : label -> finstr IL := @FLabel IL.
+Definition mFGoto : label -> finstr IL := @FGoto IL.
+Definition mFCondGoto : kw -> fcond IL -> label -> finstr IL := @FCondGoto IL.
